@@ -72,7 +72,7 @@ Hypothesis roots_quorum : forall f r, In r (roots (f + 1)) ->
   quorum_on X cr fr spf fc ws q evs r f = true.
 
 Lemma roots_in f r : In r (roots f) -> In r evs.
-Proof. unfold roots_at. intros H. apply filter_In in H. tauto. Qed.
+Proof using Type. unfold roots_at. intros H. apply filter_In in H. destruct H as [H _]. exact H. Qed.
 
 Lemma visible_unique f r1 r2 x y : In x evs -> In y evs -> In r1 (roots f) -> In r2 (roots f) ->
   cr r1 = cr r2 -> fc x r1 = true -> fc y r2 = true -> r1 = r2.
@@ -84,13 +84,13 @@ Qed.
 
 Lemma voters_obs_elim r f P u : voters (obsv r f) P u = true ->
   exists r', In r' (roots f) /\ fc r r' = true /\ cr r' = u /\ P r' = true.
-Proof.
+Proof using Type.
   unfold by_cr, obs. intros H. apply existsb_exists in H as [r' [Hin H]].
   apply filter_In in Hin as [Hin Hfc]. apply andb_prop in H as [Hc HP]. apply Nat.eqb_eq in Hc. eauto.
 Qed.
 Lemma voters_obs_intro r f (P : X -> bool) u r' : In r' (roots f) -> fc r r' = true -> cr r' = u -> P r' = true ->
   voters (obsv r f) P u = true.
-Proof.
+Proof using Type.
   intros. unfold by_cr, obs. apply existsb_exists. exists r'. split.
   - apply filter_In; auto.
   - apply andb_true_intro; split; auto. apply Nat.eqb_eq; auto.
@@ -152,7 +152,7 @@ Definition decides (k : nat) (r : X) (v : nat) (b : bool) : Prop :=
   (1 <= k)%nat /\ In r (roots (f0 + N.of_nat k + 1)) /\ q <= (if b then yesV k r v else noV k r v).
 
 Lemma vote_S k r v : (1 <= k)%nat -> vote (S k) r v = (noV k r v <=? yesV k r v).
-Proof. destruct k; [lia|]. intros _. reflexivity. Qed.
+Proof using Type. destruct k; [intros H; inversion H|]. intros _. reflexivity. Qed.
 
 (* a decision at round k+1 forces every vote of round k+1 *)
 Lemma decision_forces_round k r v b r' :
